@@ -267,7 +267,8 @@ class Verifier:
             ctx.obligation_sink = sink
             try:
                 self.run_path(contract, fv, sname, builder, ctx, sink, results, info, not vac_checked)
-                vac_checked = True
+                # the precondition has to be satisfiable on SOME path through the pre-state (the builder itself may branch)
+                vac_checked = any(r.kind == "vacuity" and r.status == "proved" and r.name == f"{sname}/requires-satisfiable" for r in results)
             except Infeasible:
                 info["infeasible"] += 1
             except Unsupported as e:
@@ -276,6 +277,12 @@ class Verifier:
                                      detail=f"unsupported construct: {e}"))
             info["assumed"] |= ctx.assumed
         info["paths"] += npaths
+        vac = [r for r in results if r.kind == "vacuity" and r.name == f"{sname}/requires-satisfiable"]
+        if len(vac) > 1:
+            keep = next((r for r in vac if r.status == "proved"), vac[0])
+            for r in vac:
+                if r is not keep:
+                    results.remove(r)
 
     def run_path(self, contract, fv, sname, builder, ctx, sink, results, info, check_vacuity):
         b = SymBuilder(ctx, self.world)
